@@ -80,6 +80,9 @@ pub fn typed(mt: &str, text: &str) -> Result<TypedInfo, String> {
 #[derive(Clone, Debug)]
 pub struct AutoInfo {
     pub message_type: String,
+    /// the "mt_type" tag of the wrapper's JSON, and what the wrapper rebuilt from that JSON says it is
+    pub json_tag: String,
+    pub json_back: Result<String, String>,
     /// to_value of the wrapper enum, with the "mt_type" tag removed
     pub json: Value,
     pub validate: (bool, Vec<String>),
@@ -91,12 +94,16 @@ pub fn auto(text: &str) -> Result<AutoInfo, String> {
         Ok(Err(e)) => Err(format!("error:{}", serde_json::to_value(&e).map(|v| v.to_string()).unwrap_or_default())),
         Ok(Ok(p)) => guarded(|| {
             let mut json = serde_json::to_value(&p).unwrap_or(Value::Null);
+            let json_tag = json["mt_type"].as_str().unwrap_or("").to_string();
+            let json_back = serde_json::from_value::<swift_mt_message::ParsedSwiftMessage>(json.clone())
+                .map(|q| q.message_type().to_string()).map_err(|e| e.to_string());
             if let Some(o) = json.as_object_mut() {
                 o.remove("mt_type");
             }
             let vr = p.validate();
             AutoInfo {
                 message_type: p.message_type().to_string(),
+                json_tag, json_back,
                 json,
                 validate: (vr.is_valid, vr.errors.iter().map(rule_of).collect()),
             }
